@@ -299,3 +299,152 @@ Example C04_example_lock_sites :
                     lz_eqb (lk_fn s) lkn_deleteExchange &&
                     lk_acc_eqb (lk_kind s) LkWrite) lock_sites = true.
 Proof. exact lock_sites_example. Qed.
+
+(* ------------------------------------------------------------------------------------------
+   POOL DISCIPLINE (strengthening U04).
+
+   Objects that calls take from a sync.Pool -- the running checksum of every message writer and
+   reader, the typed.Reader behind thrift.ReadHeaders, the thrift protocol of ReadStruct /
+   WriteStruct and of the thrift server, scratch buffers, the RequestState of RunWithRetry -- are
+   the one piece of state that calls of DIFFERENT exchanges, connections and channels share: the
+   pools are process-wide.  "Frames / data for an id reach that call only" and "each caller
+   receives its complete, unmodified response" hold only if such an object has one holder at a
+   time.  The pool itself guarantees nothing of the kind: it hands out what was put into it.
+
+   Vocabulary: Spec/PoolTraceSpec.v.  A trace is a list of [PGet o h] / [PPut o h] (holder h was handed
+   object o / put it back).  [disciplined es]: every Get returns an object of the pool or a new
+   one (the pool's half, [get_legal]) and every Put is preceded by a Get of that object by that
+   holder that no Put has answered yet (the users' half, [put_matched]: nobody puts an object back
+   twice, nobody puts back what he does not hold).  [exclusive w]: no object is held twice, none
+   is in the pool twice, none of the pool is held.
+
+   ESTABLISHED:
+     (1) pool discipline => exclusive ownership, after every prefix of every disciplined trace,
+         for any number of objects and holders; and its necessity: one unmatched Put lets the pool,
+         within its rights, hand one object to two holders;
+     (2) the extracted checker [run_pooltrace] accepts exactly the disciplined traces and names the
+         first offending event otherwise; the harness engine poolmux feeds it the traces recorded
+         on the real library (tracking checksum pools; census differences of the other pools) while
+         calls fail at their last flush / on truncated thrift header blocks among healthy calls;
+     (3) the table of EVERY sync.Pool of the library and of every Get / Put site and every call of
+         a put wrapper (a function that puts its own receiver / parameter into a pool -- detected
+         from the source, not listed), with the guard it stands under, regenerated from the source
+         on every run (Gen/GenSyncPools.v, go2v/syncpools.go), is the model's table
+         (Model/PoolSites.v), where every row has its role in a life cycle; a new Put site, a Put
+         moved out of or into a branch, a new releasing function, a new pool break
+         [C04_pool_site_offenders_none] / [C04_pools_generated] with the offending row numbers;
+     (4) any interleaving of holders that each take one object and give it back at most once --
+         the life cycles the roles stand for -- is disciplined, hence exclusive.
+   NOT ESTABLISHED by proof: that the Go control flow executes, per acquisition, at most one of
+   the release sites of its life cycle.  That is read off the guards by hand (Model/PoolSites.v)
+   and tested by the recorded traces of (2); the frame pool and the relay's timer pool are outside
+   the census (C12 / C03, C09), their sites are in the table. *)
+From Verif Require Import Spec.PoolTraceSpec Model.PoolTrace Model.PoolSites Gen.GenSyncPools
+  Proofs.PoolTraceP Proofs.PoolSitesP.
+
+(* (1) pool discipline => exclusive ownership *)
+Theorem C04_pool_discipline_exclusive : forall es, disciplined es ->
+  forall pre post, es = pre ++ post -> exclusive (pw_run pw_init pre).
+Proof. exact pool_discipline_exclusive. Qed.
+Print Assumptions C04_pool_discipline_exclusive.
+
+(* ... in the words of the property: two holdings of one object are one holding *)
+Theorem C04_pool_discipline_no_sharing : forall es, disciplined es ->
+  forall pre post, es = pre ++ post ->
+  forall o h1 h2, In (o, h1) (pw_held (pw_run pw_init pre)) -> In (o, h2) (pw_held (pw_run pw_init pre)) -> h1 = h2.
+Proof. exact pool_discipline_no_sharing. Qed.
+Print Assumptions C04_pool_discipline_no_sharing.
+
+(* ... and what the pool can hand out next is in it once and held by nobody *)
+Theorem C04_pool_discipline_bag : forall es, disciplined es ->
+  forall pre post, es = pre ++ post ->
+  NoDup (pw_bag (pw_run pw_init pre)) /\
+  forall o h, In o (pw_bag (pw_run pw_init pre)) -> ~ In (o, h) (pw_held (pw_run pw_init pre)).
+Proof. exact pool_discipline_bag. Qed.
+Print Assumptions C04_pool_discipline_bag.
+
+(* necessity: Get, Put, and the same Put again -- every later Get is legal for the pool, and two
+   holders share the object *)
+Theorem C04_pool_double_put_shares : forall o h h1 h2, h1 <> h2 ->
+  let es := [PGet o h; PPut o h; PPut o h; PGet o h1; PGet o h2] in
+  pool_legal es /\
+  ~ disciplined es /\
+  In (o, h1) (pw_held (pw_run pw_init es)) /\ In (o, h2) (pw_held (pw_run pw_init es)) /\
+  ~ no_sharing (pw_run pw_init es).
+Proof. exact double_put_shares. Qed.
+Print Assumptions C04_pool_double_put_shares.
+
+(* (2) the checker decides the discipline *)
+Theorem C04_pooltrace_checker : forall es, pt_ok es = true <-> disciplined es.
+Proof. exact pt_ok_iff_disciplined. Qed.
+Print Assumptions C04_pooltrace_checker.
+
+(* an accepted harness trace is disciplined, and exclusive after every prefix *)
+Theorem C04_pooltrace_accepts : forall n r out, run_pooltrace (n :: r) = 1 :: out ->
+  exists es, pt_decode (Z.to_nat n) r = Some es /\ disciplined es /\
+    forall pre post, es = pre ++ post ->
+      exclusive (pw_run pw_init pre) /\ no_sharing (pw_run pw_init pre).
+Proof. exact run_pooltrace_accepts. Qed.
+Print Assumptions C04_pooltrace_accepts.
+
+(* a rejected one: the events before the reported index are disciplined, the event at the index
+   breaks the discipline in the way the offence code says (1 put back while nobody holds it, 2 put
+   back by a stranger, 3 handed out while held, 4 neither in the pool nor new) *)
+Theorem C04_pooltrace_rejects : forall n r i c, run_pooltrace (n :: r) = [0; i; c] ->
+  exists es pre e post, pt_decode (Z.to_nat n) r = Some es /\ es = pre ++ e :: post /\ i = zlen pre /\
+    disciplined pre /\ offence_means (pw_run pw_init pre) e c /\ ~ disciplined es.
+Proof. exact run_pooltrace_rejects. Qed.
+Print Assumptions C04_pooltrace_rejects.
+
+(* (3) the generated tables are the model's *)
+Theorem C04_pool_site_offenders_none : ps_offenders syncpool_sites = [].
+Proof. exact syncpool_site_offenders_none. Qed.
+Print Assumptions C04_pool_site_offenders_none.
+
+Theorem C04_pool_sites_generated : map fst pool_site_table = syncpool_sites.
+Proof. exact syncpool_sites_generated. Qed.
+Print Assumptions C04_pool_sites_generated.
+
+Theorem C04_pools_generated : pd_offenders syncpool_decls = [] /\ pool_decl_table = syncpool_decls.
+Proof. exact (conj syncpool_decl_offenders_none syncpool_decls_generated). Qed.
+Print Assumptions C04_pools_generated.
+
+(* every pool of the source is under census in the harness, or listed with the reason why not *)
+Theorem C04_pools_covered : forall d, In d syncpool_decls -> pool_covered d = true.
+Proof. exact pools_covered. Qed.
+Print Assumptions C04_pools_covered.
+
+(* the roles: Get rows begin a life cycle, Put / PutVia rows end one or hand on inside a wrapper;
+   every cycle is entered and left; two release sites of one cycle inside one function only in
+   thrift.Server.handle (two acquisitions) *)
+Theorem C04_pool_roles : forallb ps_role_ok pool_site_table = true /\ ps_cycles_ok = true /\
+  ps_same_fn_releases pool_site_table = ps_double_release_fns.
+Proof. exact (conj (proj1 pool_roles_ok) (conj (proj2 pool_roles_ok) pool_double_release_fns)). Qed.
+Print Assumptions C04_pool_roles.
+
+(* (4) the life cycles: one Get, at most one Put per holder, any number of holders, any
+   interleaving, objects dropped without release allowed *)
+Theorem C04_pool_cycles_disciplined : forall ls evs s', lc_run lc_init ls = Some (evs, s') -> disciplined evs.
+Proof. exact lc_disciplined. Qed.
+Print Assumptions C04_pool_cycles_disciplined.
+
+Theorem C04_pool_cycles_no_sharing : forall ls evs s', lc_run lc_init ls = Some (evs, s') ->
+  forall pre post, evs = pre ++ post -> exclusive (pw_run pw_init pre) /\ no_sharing (pw_run pw_init pre).
+Proof. exact lc_no_sharing. Qed.
+Print Assumptions C04_pool_cycles_no_sharing.
+
+(* non-vacuity *)
+Example C04_example_pooltrace_ok :
+  run_pooltrace [6; 0; 7; 1;  0; 8; 2;  1; 7; 1;  0; 7; 3;  1; 8; 2;  1; 7; 3] = [1; 6; 0; 2].
+Proof. exact pooltrace_example_ok. Qed.
+Example C04_example_pooltrace_double_put :
+  run_pooltrace [5; 0; 7; 1;  1; 7; 1;  1; 7; 1;  0; 7; 2;  0; 7; 3] = [0; 2; 1].
+Proof. exact pooltrace_example_double_put. Qed.
+Example C04_example_pool_cycles :
+  exists evs s', lc_run lc_init [LcGet 1 None; LcGet 2 None; LcPut 1; LcGet 3 (Some 1); LcDrop 2; LcPut 3] = Some (evs, s')
+    /\ evs = [PGet 1 1; PGet 2 2; PPut 1 1; PGet 1 3; PPut 1 3].
+Proof. exact lc_example. Qed.
+Example C04_example_pool_sites :
+  existsb (fun p => ps_row_eq (fst p) ps_row_writer_release) pool_site_table = true /\
+  existsb (fun p => ps_row_eq (fst p) ps_row_readheaders_release) pool_site_table = true.
+Proof. exact pool_sites_example. Qed.
